@@ -296,7 +296,17 @@ func dimensionIndexRule(c *Ctx, r *Result, rule string, floor int) {
 		}
 		// sequences read with a loop variable: base value -> true
 		isLoopVar := func(v ssa.Value) bool {
-			phi, ok := stripConv(v).(*ssa.Phi)
+			if prm, isP := stripConv(v).(*ssa.Parameter); isP && isIntType(prm.Type()) {
+				return true // the dimension handed to a recursive per-dimension function
+			}
+			w := stripConv(v)
+			// a range loop's index is the incremented counter: phi + 1
+			if inc, isInc := w.(*ssa.BinOp); isInc && inc.Op == token.ADD {
+				if k, isK := constInt(inc.Y); isK && k == 1 {
+					w = inc.X
+				}
+			}
+			phi, ok := w.(*ssa.Phi)
 			if !ok {
 				return false
 			}
@@ -318,10 +328,19 @@ func dimensionIndexRule(c *Ctx, r *Result, rule string, floor int) {
 			}
 			return ia.X, ia.Index, true
 		}
-		byLoop := map[ssa.Value]bool{}
+		// a sequence held in a field is loaded anew at every use: key it by field and receiver
+		baseKey := func(v ssa.Value) string {
+			if ld, ok := isLoad(v); ok {
+				if f, recv := fieldOfAddr(ld.X); f != nil {
+					return "field " + fieldKey(recv.Type(), f) + " of " + recv.Name()
+				}
+			}
+			return fmt.Sprintf("%s %p", v.Name(), v)
+		}
+		byLoop := map[string]bool{}
 		instrs(fn, func(in ssa.Instruction) {
 			if ia, ok := in.(*ssa.IndexAddr); ok && isLoopVar(ia.Index) {
-				byLoop[ia.X] = true
+				byLoop[baseKey(ia.X)] = true
 			}
 		})
 		if len(byLoop) == 0 {
@@ -355,7 +374,7 @@ func dimensionIndexRule(c *Ctx, r *Result, rule string, floor int) {
 				}
 				if isLoopVar(idx) {
 					hasLoop = true
-				} else if k, isK := constInt(idx); isK && byLoop[base] {
+				} else if k, isK := constInt(idx); isK && byLoop[baseKey(base)] {
 					constElem = append(constElem, fmt.Sprintf("%s[%d]", base.Name(), k))
 				}
 			}
@@ -366,6 +385,42 @@ func dimensionIndexRule(c *Ctx, r *Result, rule string, floor int) {
 			if len(constElem) > 0 {
 				bad++
 				r.Viol(rule, fmt.Sprintf("%s#product-mixes-dimensions-%d", c.Name(fn), bad), c.InstrPos(bo), "a per-dimension product takes "+strings.Join(constElem, ", ")+" with a constant index while the other factors, and other reads of the same sequence, use the loop variable")
+			}
+		})
+		// the same for an ordering test between two elements: x[i] < t[0] where t is read per dimension elsewhere
+		instrs(fn, func(in ssa.Instruction) {
+			bo, ok := in.(*ssa.BinOp)
+			if !ok {
+				return
+			}
+			switch bo.Op {
+			case token.LSS, token.LEQ, token.GTR, token.GEQ:
+			default:
+				return
+			}
+			bx, ix, okx := elemOf(bo.X)
+			by, iy, oky := elemOf(bo.Y)
+			if !okx || !oky {
+				return
+			}
+			var cb ssa.Value
+			var ck int64
+			switch {
+			case isLoopVar(ix):
+				if k, isK := constInt(iy); isK {
+					cb, ck = by, k
+				}
+			case isLoopVar(iy):
+				if k, isK := constInt(ix); isK {
+					cb, ck = bx, k
+				}
+			default:
+				return
+			}
+			n++
+			if cb != nil && byLoop[baseKey(cb)] {
+				bad++
+				r.Viol(rule, fmt.Sprintf("%s#comparison-mixes-dimensions-%d", c.Name(fn), bad), c.InstrPos(bo), fmt.Sprintf("a per-dimension comparison takes %s[%d] with a constant index while the other side, and other reads of the same sequence, use the dimension variable", cb.Name(), ck))
 			}
 		})
 	}
